@@ -282,11 +282,9 @@ fn eval_mutant(
         .count(format!("native/{}", if native.accepts() { "accept" } else { "reject" }), 1);
     if let NativeV::Panic(site) = &native {
         if site.starts_with("repo/") {
-            recs.push(Rec::violated(
-                format!("{key}:native"),
-                format!("panic/verify_all_tables/{site}"),
-                det("BatchStarkProver::verify_all_tables (native verifier of the repository)", &native, &CircV::Reject("n/a".into())),
-            ));
+            // The native verifier of circuit proofs is not a circuit builder: a panic there is an
+            // (unclean) rejection, observed here and judged by C16.
+            base = base.count(format!("native-verify_all_tables-panic/{site}"), 1);
         } else {
             base = base.count(format!("native-plonky3-panic/{site}"), 1);
         }
@@ -560,8 +558,10 @@ fn run_job(
                     out.push(
                         CaseResult::inconclusive(key, format!("timeout in {ep}")).count(format!("timeout/{ep}"), 1),
                     );
-                } else if last_p == "native" && shape.kind() != "circuit-batch" {
-                    out.push(CaseResult::held(key, false).count(format!("native-plonky3-abort/{label}"), 1));
+                } else if last_p == "native" {
+                    // native verifiers (Plonky3's, or the repo's verify_all_tables) are not circuit
+                    // builders: an abort there is an unclean rejection, observed only (see C16)
+                    out.push(CaseResult::held(key, false).count(format!("native-verifier-abort/{ep}/{label}"), 1));
                 } else {
                     out.push(CaseResult::violated(
                         key,
